@@ -13,7 +13,7 @@ ENTRIES = ["copy_randombytes17", "copy_randombytes37", "randombytes_buf21", "sta
            "pwhash_hash_salt32", "pwhash_hash_salt21", "pwhash_hash_salt64",
            "randombytes_buf", "copy_randombytes", "secretbox_keygen", "secretbox_keygen_inplace", "box_keypair", "box_keypair_inplace",
            "kx_keypair", "kdf_keygen", "auth_keygen", "onetimeauth_keygen", "shorthash_keygen", "generichash_keygen", "sign_keypair",
-           "sign_keypair_inplace", "secretstream_keygen", "secretstream_init_push", "box_seal", "pwhash_str",
+           "sign_keypair_inplace", "secretstream_keygen", "secretstream_init_push", "box_seal", "box_seal_oversize", "pwhash_str",
            "stack_gen32", "stack_gen24", "array_gen32", "vec_gen32", "vec_gen8", "stack_gen8", "stack_gen5", "array_gen7", "array_gen257", "array_gen1000", "stack_gen300", "vec_gen513", "keypair_gen", "keypair_gen_with_defaults",
            "signing_keypair_gen", "signing_keypair_gen_with_defaults", "kdf_gen", "kdf_gen_with_defaults", "dryocbox_seal",
            "dryocstream_init_push", "pwhash_hash", "secretbox_nonce_gen", "secretbox_key_gen", "box_nonce_gen", "auth_key_gen",
